@@ -25,8 +25,7 @@ import vlib
 
 # production group -> (cfg, exhaustive?)
 UNMASK = {"lambda_annot": ("Typing_un_lambda_annot.cfg", False), "call_gen_rec": ("Typing_un_call_gen_rec.cfg", False),
-          "call_rec_labels": ("Typing_un_call_rec_labels.cfg", True), "late_use": ("Typing_un_late_use.cfg", False),
-          "shade_c": ("Typing_un_shade_c.cfg", True)}
+          "call_rec_labels": ("Typing_un_call_rec_labels.cfg", True), "late_use": ("Typing_un_late_use.cfg", False),}
 
 
 def write_cases(path, results):
